@@ -329,399 +329,7 @@ func findMissingRules(c *Ctx) {
 
 // keyspaceRulesV0 is the first version (superseded by rules_keys.go; kept only
 // until the file is next rewritten).
-func keyspaceRulesV0(c *Ctx) {
-	R := c.R
-	R.Rule("R15b", "E2+E3", "compressed reads are CAS-only: GetZstd fixes kind = CAS, get rejects zstd for other kinds before any lookup, and the server calls GetZstd only where the kind is CAS", 3)
-	R.Rule("R15c", "E3", "the kind is the namespace: the kind argument of every Cache call in package server is a constant or the kind parseRequestURL derived from the URL (cas/ -> CAS, ac/ -> AC iff validation is on, else RAW)", 15)
-	R.Rule("R15d", "E2+E3", "mangling at every AC entry point with the request's instance: each action-cache access is dominated by `if mangleACKeys { hash = TransformActionCacheKey(hash, instance) }` with the request's instance name; CAS keys are never mangled; TransformActionCacheKey returns the key unchanged iff the instance is empty, else hex(sha256(key || instance))", 6)
-	R.Rule("R15e", "E2", "keys are validated before they become file names: every Cache call in package server whose hash comes from a request is dominated by validateHash / the hash regexp / the URL regexp / validate.ActionResult, or the hash is the output of hex.EncodeToString; cache/disk checks the length before slicing the hash", 15)
-
-	// R15b
-	if fi := c.P.MustFunc(R, "R15b", "disk.(*diskCache).GetZstd"); fi != nil {
-		ok := false
-		for _, call := range callsIn(fi.Decl.Body, false) {
-			if calleeKey(fi.Pkg.TypesInfo, call) == kGet && exprStr(call.Args[1]) == "cache.CAS" && exprStr(call.Args[5]) == "true" {
-				ok = true
-			}
-		}
-		R.Check(ok, "R15b", c.Cfg+"GetZstd:kind", c.P.Pos(fi.Decl.Pos()), "GetZstd always reads the CAS", "GetZstd does not call get(ctx, cache.CAS, ..., true)")
-	}
-	if fi := c.P.MustFunc(R, "R15b", kGet); fi != nil {
-		var base *Base
-		n := 0
-		base = NewBase(Hooks{EveryCall: func(x *Exec, call *ast.CallExpr, s St) []St {
-			if calleeKey(x.Fn.Info, call) == kAvail {
-				n++
-				kt, _ := base.Term(x, roleIdent(x, "kind", "param:1"), s)
-				zt, _ := base.Term(x, roleIdent(x, "zstd", "param:5"), s)
-				isCAS, known := relLookup(s, "#1", "==", kt)
-				ok := s.Get("b:"+zt) == "false" || (known && isCAS)
-				R.Check(ok, "R15b", c.Cfg+"get:lookup-guard", c.P.Pos(call.Pos()), "the lookup is reached with zstd only for kind == CAS", "a compressed read of a non-CAS key space can reach the lookup", x.Trace()...)
-			}
-			return []St{s}
-		}})
-		x := NewExec(c.P.FlowOf(fi), base)
-		x.Run(newSt())
-		R.Check(n > 0, "R15b", c.Cfg+"get:lookup-found", "", "the lookup call was analysed", "not found")
-	}
-
-	type site struct {
-		fn   *FuncInfo
-		call *ast.CallExpr
-		op   string
-	}
-	var sites []site
-	for _, fi := range c.P.FuncsInPkg("/server") {
-		if strings.HasSuffix(c.P.Fset.Position(fi.Decl.Pos()).Filename, "_test.go") {
-			continue
-		}
-		for _, call := range callsIn(fi.Decl.Body, true) {
-			k := calleeKey(fi.Pkg.TypesInfo, call)
-			if strings.HasPrefix(k, "disk.(Cache).") {
-				op := strings.TrimPrefix(k, "disk.(Cache).")
-				switch op {
-				case "Get", "Put", "Contains", "GetZstd", "GetValidatedActionResult":
-					sites = append(sites, site{fi, call, op})
-				}
-			}
-		}
-	}
-	// R15c
-	ord := map[string]int{}
-	for _, st := range sites {
-		if st.op == "GetZstd" || st.op == "GetValidatedActionResult" {
-			continue
-		}
-		ord[st.fn.Key+st.op]++
-		key := fmt.Sprintf("%s%s:%s#%d:kind", c.Cfg, st.fn.Key, st.op, ord[st.fn.Key+st.op])
-		k := exprStr(st.call.Args[1])
-		ok := k == "cache.CAS" || k == "cache.AC"
-		if k == "kind" && st.fn.Key == "server.(*httpCache).CacheHandler" {
-			// defined by parseRequestURL
-			info := st.fn.Pkg.TypesInfo
-			o := identObj(info, st.call.Args[1])
-			ast.Inspect(st.fn.Decl.Body, func(n ast.Node) bool {
-				if as, k2 := n.(*ast.AssignStmt); k2 && len(as.Rhs) == 1 && len(as.Lhs) == 4 {
-					if call, k3 := as.Rhs[0].(*ast.CallExpr); k3 && calleeKey(info, call) == "server.parseRequestURL" && identObj(info, as.Lhs[0]) == o {
-						ok = exprStr(call.Args[0]) == "r.URL.Path" && strings.HasSuffix(exprStr(call.Args[1]), ".validateAC")
-					}
-				}
-				return true
-			})
-		}
-		R.Check(ok, "R15c", key, c.P.Pos(st.call.Pos()), "the kind argument is a constant key space or the one derived from the request URL", "kind argument is "+k)
-	}
-	if fi := c.P.MustFunc(R, "R15c", "server.parseRequestURL"); fi != nil {
-		var base *Base
-		got := map[string]bool{}
-		base = NewBase(Hooks{Exit: func(x *Exec, ret *ast.ReturnStmt, s St) {
-			if ret == nil || len(ret.Results) != 4 || RetNil(x.Fn, s, 3) == "nonnil" {
-				return
-			}
-			cas := ""
-			for k, v := range s.m {
-				if strings.HasPrefix(k, `p:#"cas/"==`) {
-					cas = v
-				}
-			}
-			va := ""
-			for k, v := range s.m {
-				if strings.HasPrefix(k, "b:validateAC@") {
-					va = v
-				}
-			}
-			got[fmt.Sprintf("cas=%s,validate=%s->%s", cas, va, exprStr(ret.Results[0]))] = true
-		}})
-		base.H.Call = errFork(base)
-		x := NewExec(c.P.FlowOf(fi), base)
-		x.Run(newSt())
-		want := []string{"cas=T,validate=->cache.CAS", "cas=F,validate=true->cache.AC", "cas=F,validate=false->cache.RAW"}
-		ok := len(got) == 3
-		for _, w := range want {
-			if !got[w] {
-				ok = false
-			}
-		}
-		R.Check(ok, "R15c", c.Cfg+"parseRequestURL:table", c.P.Pos(fi.Decl.Pos()), "parseRequestURL maps cas/ -> CAS, ac/ -> AC when validating, else RAW", fmt.Sprintf("mapping is %v", keysOf(got)))
-		// the regexp admits exactly ac/ and cas/ with a 64-hex key
-		pat := ""
-		if spkg := c.P.Pkg("/server"); spkg != nil {
-			for _, f := range spkg.Syntax {
-				ast.Inspect(f, func(n ast.Node) bool {
-					if vs, ok := n.(*ast.ValueSpec); ok && len(vs.Names) == 1 && vs.Names[0].Name == "blobNameSHA256" && len(vs.Values) == 1 {
-						if call, ok := vs.Values[0].(*ast.CallExpr); ok {
-							pat, _ = constString(spkg.TypesInfo, call.Args[0])
-						}
-					}
-					return true
-				})
-			}
-		}
-		R.Check(pat == "^/?(.*/)?(ac/|cas/)([a-f0-9]{64})$", "R15c", c.Cfg+"blobNameSHA256", "", "the URL grammar is ^/?(.*/)?(ac/|cas/)([a-f0-9]{64})$", "the URL grammar is "+pat)
-	}
-
-	// R15d + R15e on the path engine, per handler
-	handlers := map[string]bool{}
-	for _, st := range sites {
-		handlers[st.fn.Key] = true
-	}
-	mpos := 0
-	for key := range handlers {
-		fi := c.P.Func(key)
-		var base *Base
-		local := map[string]bool{}
-		base = NewBase(Hooks{
-			Call: func(x *Exec, call *ast.CallExpr, lhs []ast.Expr, s St) ([]St, bool) {
-				info := x.Fn.Info
-				k := calleeKey(info, call)
-				switch k {
-				case "server.(*grpcServer).validateHash":
-					ht, ok := base.Term(x, call.Args[0], s)
-					return base.ForkErr(x, lhs, 0, s, func(okSt St) St {
-						if ok {
-							return okSt.Set("okhash:"+ht, "1")
-						}
-						return okSt
-					}, nil), true
-				case "validate.ActionResult":
-					at, ok := base.Term(x, call.Args[0], s)
-					return base.ForkErr(x, lhs, 0, s, func(okSt St) St {
-						if ok {
-							return okSt.Set("validated:"+at, "1")
-						}
-						return okSt
-					}, nil), true
-				case "server.(*grpcServer).parseWriteResource", "server.(*grpcServer).parseReadResource":
-					return base.ForkErr(x, lhs, 3, s, func(okSt St) St {
-						if t, ok := base.LTerm(x, lhs[0], okSt); ok {
-							return okSt.Set("okhash:"+t, "1")
-						}
-						return okSt
-					}, nil), true
-				case "disk.(Cache).GetValidatedActionResult":
-					return base.ForkErr(x, lhs, 2, s, func(okSt St) St {
-						if t, ok := base.LTerm(x, lhs[0], okSt); ok {
-							return okSt.Set("validated:"+t, "1")
-						}
-						return okSt
-					}, nil), true
-				}
-				if fullCalleeName(info, call) == "encoding/hex.EncodeToString" && len(lhs) == 1 {
-					st := base.AssignValue(x, lhs[0], nil, s)
-					if t, ok := base.LTerm(x, lhs[0], st); ok {
-						st = st.Set("okhash:"+t, "1")
-					}
-					return []St{st}, true
-				}
-				return errFork(base)(x, call, lhs, s)
-			},
-			Cond: func(x *Exec, cond ast.Expr, truth bool, s St) ([]St, bool) {
-				if call, ok := ast.Unparen(cond).(*ast.CallExpr); ok && strings.HasSuffix(exprStr(call.Fun), "HashKeyRegex.MatchString") {
-					if t, ok := base.Term(x, call.Args[0], s); ok && truth {
-						return []St{s.Set("okhash:"+t, "1")}, true
-					}
-					return []St{s}, true
-				}
-				return nil, false
-			},
-			PreAssign: func(x *Exec, as *ast.AssignStmt, s St) St {
-				// hash = cache.TransformActionCacheKey(hash, instance, logger)
-				if len(as.Lhs) == 1 && len(as.Rhs) == 1 {
-					if call, ok := as.Rhs[0].(*ast.CallExpr); ok && calleeKey(x.Fn.Info, call) == "cache.TransformActionCacheKey" {
-						if lt, ok := base.Term(x, as.Lhs[0], s); ok {
-							at, _ := base.Term(x, call.Args[0], s)
-							inst := exprStr(call.Args[1])
-							okPrev := s.Get("okhash:" + at)
-							s = s.Set("pendmangle", lt+"|"+inst+"|"+okPrev+"|"+fmt.Sprint(at == lt))
-						}
-					}
-				}
-				return s
-			},
-			Assign: func(x *Exec, as *ast.AssignStmt, s St) []St {
-				if pm := s.Get("pendmangle"); pm != "" {
-					p := strings.Split(pm, "|")
-					s = s.Set("pendmangle", "").Set("mangled:"+p[0], p[1])
-					// the result is a hex digest (or the unchanged, already judged key)
-					if p[2] == "1" {
-						s = s.Set("okhash:"+p[0], "1")
-					} else {
-						s = s.Set("hexorsame:"+p[0], "1")
-					}
-				}
-				// range over a validated message's repeated field; copies of validated hashes
-				if len(as.Lhs) == len(as.Rhs) {
-					for i, r := range as.Rhs {
-						if rt, ok := base.Term(x, r, s); ok && s.Get("okhash:"+rt) == "1" {
-							if lt, ok := base.LTerm(x, as.Lhs[i], s); ok {
-								s = s.Set("okhash:"+lt, "1")
-							}
-						}
-					}
-				}
-				return []St{s}
-			},
-			EveryCall: func(x *Exec, call *ast.CallExpr, s St) []St {
-				info := x.Fn.Info
-				k := calleeKey(info, call)
-				if !strings.HasPrefix(k, "disk.(Cache).") {
-					return []St{s}
-				}
-				op := strings.TrimPrefix(k, "disk.(Cache).")
-				hi := 2
-				switch op {
-				case "GetZstd", "GetValidatedActionResult":
-					hi = 1
-				case "Get", "Put", "Contains":
-				default:
-					return []St{s}
-				}
-				site := fmt.Sprintf("%s%s:%s#%d", c.Cfg, rootName(x), op, callOrdinal(x, call))
-				ht, hok := base.Term(x, call.Args[hi], s)
-				// ---- R15e ----
-				valid := hok && (s.Get("okhash:"+ht) == "1" || s.Get("hexorsame:"+ht) == "1" && false)
-				if !valid && hok {
-					// a digest inside a validated ActionResult, or a URL-regexp capture
-					for kk := range s.m {
-						if strings.HasPrefix(kk, "validated:") && strings.HasPrefix(ht, kk[len("validated:"):]) {
-							valid = true
-						}
-					}
-					if s.Get("urlhash:"+ht) == "1" {
-						valid = true
-					}
-				}
-				if !valid && hok && strings.HasPrefix(ht, "*") {
-					valid = s.Get("okhash:"+ht) == "1"
-				}
-				if key == "server.(*grpcServer).maybeInline" {
-					R.OK("R15e", site+":validated", c.P.Pos(call.Pos()), "frozen exception: maybeInline only receives digests of an ActionResult that passed validate.ActionResult (GetValidatedActionResult) or digests it computed with sha256")
-				} else {
-					R.Check(valid, "R15e", site+":validated", c.P.Pos(call.Pos()), "the key handed to the cache was validated (validateHash / regexp / validated ActionResult / hex digest) on every path",
-						"a request-controlled key "+exprStr(call.Args[hi])+" can reach the cache (and become a file name) without validation", x.Trace()...)
-				}
-				local[site] = true
-				// ---- R15d ----
-				isAC := op == "GetValidatedActionResult" || (hi == 2 && exprStr(call.Args[1]) == "cache.AC")
-				kindVar := hi == 2 && exprStr(call.Args[1]) == "kind"
-				mangle := ""
-				for kk, v := range s.m {
-					if strings.HasPrefix(kk, "b:") && strings.HasSuffix(kk, ".mangleACKeys") {
-						mangle = v
-					}
-				}
-				m := ""
-				if hok {
-					m = s.Get("mangled:" + ht)
-				}
-				if kindVar {
-					kc := ""
-					for kk, v := range s.m {
-						if strings.HasPrefix(kk, "c:kind@") {
-							kc = v
-						}
-					}
-					isAC = kc == "0" || kc == "2"
-					if kc == "" {
-						isAC = false
-						kindVar = false
-						R.Fail("R15d", site+":kind-known", c.P.Pos(call.Pos()), "the key space of this access is not determined on this path (unrecognised construct)", x.Trace()...)
-					}
-				}
-				if isAC {
-					mpos++
-					want := "req.InstanceName"
-					if key == "server.(*httpCache).CacheHandler" || strings.HasPrefix(key, "server.(*httpCache).handle") {
-						want = "instance"
-					}
-					ok := mangle == "false" || m == want
-					R.Check(ok, "R15d", site+":mangled", c.P.Pos(call.Pos()), "the action-cache key is mangled with the request's instance name whenever mangling is enabled",
-						fmt.Sprintf("action-cache access with mangling=%s and key mangled with %q: entries of different instances collide or are not found", mangle, m), x.Trace()...)
-				} else if hi == 2 && (exprStr(call.Args[1]) == "cache.CAS" || kindVar) {
-					R.Check(m == "", "R15d", site+":cas-not-mangled", c.P.Pos(call.Pos()), "CAS keys are never mangled", "a CAS access uses a key mangled with "+m, x.Trace()...)
-				}
-				return []St{s}
-			},
-		}, "server.parseRequestURL", "server.(*httpCache).handleGetValidAC", "server.(*httpCache).handleContainsValidAC")
-		// parseRequestURL's hash result is a URL-regexp capture
-		base.H.Return = func(x *Exec, ret *ast.ReturnStmt, s St) []St {
-			if x.Fn.Name == "server.parseRequestURL" && ret != nil && len(ret.Results) == 4 {
-				rts := resultTerms(x.Fn)
-				if exprStr(ret.Results[1]) == "hash" {
-					s = s.Set("urlcap:"+rts[1], "1")
-				}
-			}
-			return []St{s}
-		}
-		if fi == nil || strings.HasPrefix(key, "server.(*httpCache).handle") {
-			continue
-		}
-		x := NewExec(c.P.FlowOf(fi), base)
-		init := newSt()
-		x.Run(init)
-		if x.Aborted != "" {
-			R.Fail("R15e", c.Cfg+key+":explore", "", "exploration did not complete: "+x.Aborted)
-		}
-		for _, l := range nonDeferredLits(fi.Decl.Body) {
-			y := NewExec(enclosingLit(c.P.FlowOf(fi), l), base)
-			y.Run(newSt())
-		}
-	}
-	R.Check(mpos >= 5, "R15d", c.Cfg+"ac-access-sites", "", "the action-cache access sites were analysed", fmt.Sprintf("only %d action-cache accesses seen", mpos))
-	// TransformActionCacheKey
-	if fi := c.P.MustFunc(R, "R15d", "cache.TransformActionCacheKey"); fi != nil {
-		info := fi.Pkg.TypesInfo
-		first := false
-		if is, ok := fi.Decl.Body.List[0].(*ast.IfStmt); ok && strings.ReplaceAll(exprStr(is.Cond), " ", "") == `instance==""` {
-			if r, ok := is.Body.List[0].(*ast.ReturnStmt); ok && exprStr(r.Results[0]) == "key" {
-				first = true
-			}
-		}
-		var writes []string
-		hexRet := false
-		for _, call := range callsIn(fi.Decl.Body, false) {
-			if strings.HasSuffix(fullCalleeName(info, call), ".Write") && len(call.Args) == 1 {
-				writes = append(writes, strings.ReplaceAll(exprStr(call.Args[0]), " ", ""))
-			}
-			if fullCalleeName(info, call) == "encoding/hex.EncodeToString" {
-				hexRet = true
-			}
-		}
-		sha := false
-		for _, call := range callsIn(fi.Decl.Body, false) {
-			if fullCalleeName(info, call) == "crypto/sha256.New" {
-				sha = true
-			}
-		}
-		R.Check(first && sha && hexRet && strings.Join(writes, ",") == "[]byte(key),[]byte(instance)", "R15d", c.Cfg+"TransformActionCacheKey:definition", c.P.Pos(fi.Decl.Pos()),
-			"TransformActionCacheKey returns key for the empty instance, else hex(sha256(key || instance))", fmt.Sprintf("empty-returns-key=%v sha256=%v hex=%v writes=%v", first, sha, hexRet, writes))
-	}
-	// cache/disk re-checks the length before slicing the hash
-	for _, key := range []string{kPut, kGet, "disk.(*diskCache).Contains"} {
-		fi := c.P.MustFunc(R, "R15e", key)
-		if fi == nil {
-			continue
-		}
-		ok := false
-		for _, st := range fi.Decl.Body.List {
-			if is, k := st.(*ast.IfStmt); k && strings.ReplaceAll(exprStr(is.Cond), " ", "") == "len(hash)!=sha256HashStrSize" {
-				if _, isRet := is.Body.List[len(is.Body.List)-1].(*ast.ReturnStmt); isRet {
-					ok = true
-				}
-			}
-			// must precede any use of FileLocation*/LookupKey: it is among the first statements
-			if _, isDefer := st.(*ast.DeferStmt); !isDefer {
-				if _, isIf := st.(*ast.IfStmt); !isIf {
-					break
-				}
-			}
-		}
-		R.Check(ok, "R15e", c.Cfg+key+":hash-length", c.P.Pos(fi.Decl.Pos()), key+" rejects a hash whose length is not 64 before anything else (hash[:2] cannot panic, the key cannot be shorter than its directory level)", "the leading len(hash) != sha256HashStrSize rejection was not found")
-	}
-}
-
 // ---------- C16 ----------
-
 func writeProtocolRules(c *Ctx) {
 	R := c.R
 	R.Rule("R16a", "E2", "acknowledge after the store: every SendAndClose(&resp) in Write is dominated by having received nil or io.EOF (blob already present) from the Put result channel", 3)
